@@ -105,6 +105,7 @@ def run(tier):
         ctx.add_tlc(res, label)
         if not exports:
             raise common.MachineryError("CExpr exported nothing for " + label)
+        exports.sort(key=lambda e: (e["mode"], " ".join(e["toks"])))      # TLC workers print in no particular order
         if sample and len(exports) > sample:
             exports = rnd.sample(exports, sample)
         for e in exports[len(exports) // 2: len(exports) // 2 + 2]:
